@@ -1,15 +1,17 @@
 (* C02_accept_iff: the validator's model accepts a document iff no rule is violated,
    assembled from the per-rule theorems. *)
-From Coq Require Import List Arith Lia Bool String NArith.
+From Coq Require Import List Arith Lia Bool String NArith ListDec.
 From GQL Require Import Exec.Syntax Validate.VSyntax Validate.Overlap Validate.OverlapSpec Validate.Rules Validate.All
-     Proofs.ValidateRules Proofs.ValidateInputFields Proofs.ValidateCycles Proofs.ValidateCyclesComplete Proofs.ValidateUnused Proofs.ValidateMemo.
+     Validate.OverlapWf
+     Proofs.ValidateRules Proofs.ValidateInputFields Proofs.ValidateCycles Proofs.ValidateCyclesComplete Proofs.ValidateUnused Proofs.ValidateMemo
+     Proofs.ValidateMemoHard Proofs.ValidateWf Proofs.ValidateWfDoc Proofs.ValidateDecide Proofs.ValidateClosure Proofs.ValidateRulesDecl Proofs.ValidateLiteral.
 Import ListNotations.
 Open Scope N_scope.
 
 Definition Violates (r : N) (S : schema) (W : wdoc) : Prop :=
   match r with
-  | 0 => Violates_arguments_of_correct_type S W
-  | 1 => Violates_default_values_of_correct_type S W
+  | 0 => Violates_arguments_of_correct_type_decl S W
+  | 1 => Violates_default_values_of_correct_type_decl S W
   | 2 => Violates_fields_on_correct_type S W
   | 3 => Violates_fragments_on_composite S W
   | 4 => Violates_known_argument_names S W
@@ -18,11 +20,11 @@ Definition Violates (r : N) (S : schema) (W : wdoc) : Prop :=
   | 7 => Violates_known_type_names S W
   | 8 => Violates_lone_anonymous W
   | 9 => Violates_no_fragment_cycles W
-  | 10 => Violates_no_undefined_variables S W
+  | 10 => Violates_no_undefined_variables_decl S W
   | 11 => Violates_no_unused_fragments W
-  | 12 => Violates_no_unused_variables S W
+  | 12 => Violates_no_unused_variables_decl S W
   | 13 => ~ L1_accepts S (erase W)
-  | 14 => Violates_possible_fragment_spreads S W
+  | 14 => Violates_possible_fragment_spreads_decl S W
   | 15 => Violates_provided_non_null_arguments S W
   | 16 => Violates_scalar_leafs S W
   | 17 => Violates_unique_argument_names S W
@@ -31,7 +33,7 @@ Definition Violates (r : N) (S : schema) (W : wdoc) : Prop :=
   | 20 => Violates_unique_operation_names W
   | 21 => Violates_unique_variable_names W
   | 22 => Violates_variables_are_input_types S W
-  | 23 => Violates_variables_in_allowed_position S W
+  | 23 => Violates_variables_in_allowed_position_decl S W
   | _ => False
   end.
 
@@ -51,26 +53,26 @@ Proof.
     + intro H. rewrite (H y (or_introl eq_refl)). simpl. apply IH. intros x Hx. apply H. right. exact Hx.
 Qed.
 
-(* The exceptions, as hypotheses:
-   - the closure iteration of RecursivelyReferencedFragments did not fall short (executable test);
-   - fragment names are unique (UniqueFragmentNames; with duplicate names the DFS of
-     NoFragmentCycles, which marks names, can miss a cycle through a shadowed definition);
-   - overlap: the document is acyclic, and the memoised algorithm's acceptance implies L1
-     (proved: L1 => accepts; L3 accepts => unmemoised accepts; the reflection of the
-     unmemoised executable algorithm into the Prop-level decomposition is not proved). *)
+(* The remaining hypotheses are decidable and hold for every parsed document over a schema
+   the library accepts (the runner checks them on every case):
+   - ids_ok: node ids (byte offsets) of selections are distinct and non-zero;
+   - meta_ok: the schema does not redefine __typename / the type String as composite;
+   - the fuel of the overlap model is at least fuel_of (erase W).
+   Unique fragment names, acyclicity and unique argument names -- needed by the
+   NoFragmentCycles DFS and by the overlap rule -- are obtained from the verdicts of
+   UniqueFragmentNames, NoFragmentCycles and UniqueArgumentNames themselves. *)
 Theorem accept_iff : forall fuel S W,
-  closures_stable W = true ->
-  NoDup (map wf_name (w_frags W)) ->
-  acyclic S (erase W) ->
-  (run_overlap S (erase W) true fuel = [] -> L1_accepts S (erase W)) ->
+  ids_ok (erase W) = true ->
+  meta_ok S = true ->
+  (fuel_of (erase W) <= fuel)%nat ->
   (validate_model fuel S W = [] <-> forall r, ~ Violates r S W).
 Proof.
-  intros fuel S W Hst Hcyc Hac Hov. unfold validate_model. rewrite flat_map_nil.
-  assert (R : forall r, In r all_rules -> (run_rule_f fuel r S W = [] <-> ~ Violates r S W)).
-  { intros r Hr. unfold all_rules in Hr. simpl in Hr.
-    repeat (destruct Hr as [Hr|Hr]; [subst r; simpl|]); try destruct Hr.
-    - apply nil_iff. apply arguments_of_correct_type_iff.
-    - apply nil_iff. apply default_values_of_correct_type_iff.
+  intros fuel S W Hids Hmeta Hfuel. pose proof (closures_stable_always W) as Hst. unfold validate_model. rewrite flat_map_nil.
+  assert (R : forall r, In r all_rules -> r <> 9 -> r <> 13 -> (run_rule_f fuel r S W = [] <-> ~ Violates r S W)).
+  { intros r Hr N9 N13. unfold all_rules in Hr. simpl in Hr.
+    repeat (destruct Hr as [Hr|Hr]; [subst r; simpl|]); try destruct Hr; try (exfalso; apply N9; reflexivity); try (exfalso; apply N13; reflexivity).
+    - apply nil_iff. apply arguments_of_correct_type_decl_iff.
+    - apply nil_iff. apply default_values_of_correct_type_decl_iff.
     - apply nil_iff. apply fields_on_correct_type_iff.
     - apply nil_iff. apply fragments_on_composite_iff.
     - apply nil_iff. apply known_argument_names_iff.
@@ -78,16 +80,10 @@ Proof.
     - apply nil_iff. apply known_fragment_names_iff.
     - apply nil_iff. apply known_type_names_iff.
     - apply nil_iff. apply lone_anonymous_iff.
-    - apply nil_iff. apply no_fragment_cycles_iff. exact Hcyc.
-    - apply nil_iff. apply no_undefined_variables_iff.
+    - apply nil_iff. apply no_undefined_variables_decl_iff.
     - apply nil_iff. apply no_unused_fragments_iff. exact Hst.
-    - apply nil_iff. apply no_unused_variables_iff.
-    - split.
-      + intros E HN. apply HN. apply Hov. exact E.
-      + (* ~~ L1_accepts: the model's verdict is decidable *)
-        intro HN. destruct (run_overlap S (erase W) true fuel) eqn:E; [reflexivity|].
-        exfalso. apply HN. intro HL. rewrite (L1_accepts_exec S (erase W) true fuel Hac HL) in E. discriminate.
-    - apply nil_iff. apply possible_fragment_spreads_iff.
+    - apply nil_iff. apply no_unused_variables_decl_iff.
+    - apply nil_iff. apply possible_fragment_spreads_decl_iff.
     - apply nil_iff. apply provided_non_null_arguments_iff.
     - apply nil_iff. apply scalar_leafs_iff.
     - apply nil_iff. apply unique_argument_names_iff.
@@ -96,13 +92,39 @@ Proof.
     - apply nil_iff. apply unique_operation_names_iff.
     - apply nil_iff. apply unique_variable_names_iff.
     - apply nil_iff. apply variables_are_input_types_iff.
-    - apply nil_iff. apply variables_in_allowed_position_iff. }
+    - apply nil_iff. apply variables_in_allowed_position_decl_iff. }
+  assert (In9 : In 9 all_rules) by (unfold all_rules; simpl; auto 30).
+  assert (In13 : In 13 all_rules) by (unfold all_rules; simpl; auto 30).
+  assert (In17 : In 17 all_rules) by (unfold all_rules; simpl; auto 30).
+  assert (In18 : In 18 all_rules) by (unfold all_rules; simpl; auto 30).
+  assert (NDof : ~ Violates 18 S W -> NoDup (map wf_name (w_frags W))).
+  { intro H. destruct (NoDup_dec string_dec (map wf_name (w_frags W))) as [Y|N]; [exact Y|]. exfalso. apply H. exact N. }
   split.
-  - intros H r HV.
+  - intros H.
+    assert (ND : NoDup (map wf_name (w_frags W))).
+    { apply NDof. apply (proj1 (R 18 In18 ltac:(discriminate) ltac:(discriminate))). apply H. exact In18. }
+    assert (NV9 : ~ Violates_no_fragment_cycles W).
+    { apply (proj1 (nil_iff _ _ (no_fragment_cycles_iff W ND))). apply (H 9 In9). }
+    assert (L : L1_accepts S (erase W)).
+    { apply (proj1 (exec_decides_L1 S (erase W) true fuel (acyclic_of_W S W NV9) (ids_ok_distinct S _ Hids)
+                     (args_ok_unique S _ (args_ok_of_W S W (H 17 In17))) Hmeta Hfuel)).
+      apply (H 13 In13). }
+    intros r HV.
     destruct (in_dec N.eq_dec r all_rules) as [Hin|Hout].
-    + apply (proj1 (R r Hin) (H r Hin)). exact HV.
+    + destruct (N.eq_dec r 9) as [E9|N9]; [subst r; exact (NV9 HV)|].
+      destruct (N.eq_dec r 13) as [E13|N13]; [subst r; exact (HV L)|].
+      apply (proj1 (R r Hin N9 N13) (H r Hin)). exact HV.
     + apply Hout. clear -HV. unfold Violates in HV. unfold all_rules.
       destruct r as [|p]; [simpl; auto|].
       do 5 (try destruct p as [p|p|]); simpl in HV; try contradiction; simpl; auto 30.
-  - intros H r Hr. apply (proj2 (R r Hr)). apply H.
+  - intros H r Hr.
+    assert (ND : NoDup (map wf_name (w_frags W))) by (apply NDof; apply H).
+    assert (NV9 : ~ Violates_no_fragment_cycles W) by (apply (H 9)).
+    destruct (N.eq_dec r 9) as [E9|N9].
+    { subst r. simpl. apply (proj2 (nil_iff _ _ (no_fragment_cycles_iff W ND))). exact NV9. }
+    destruct (N.eq_dec r 13) as [E13|N13].
+    { subst r. simpl. destruct (run_overlap S (erase W) true fuel) eqn:E; [reflexivity|].
+      exfalso. apply (H 13). simpl. intro HL.
+      rewrite (L1_accepts_exec S (erase W) true fuel (acyclic_of_W S W NV9) HL) in E. discriminate. }
+    apply (proj2 (R r Hr N9 N13)). apply H.
 Qed.
